@@ -3041,10 +3041,17 @@ public:
            e_sz);
     }
 
+    // The forward invariant holds before the whole range store but
+    // not between the stores to the individual cells (e.g., it can
+    // say that two cells are equal while only one of them has been
+    // already written). Thus, it can be only used once all the cells
+    // have been processed.
+    array_adaptive_domain_t top_invariant = invariant.make_top();
     for (number_t i = *lb; i <= e;) {
-      backward_array_store(a, elem_size, i, val, false, invariant);
+      backward_array_store(a, elem_size, i, val, false, top_invariant);
       i = i + e_sz;
     }
+    *this = *this & invariant;
   }
 
   virtual void
